@@ -635,6 +635,7 @@ func init() {
 			{Name: "one-defect", Quick: 40000, Thorough: 2000000, Run: c06MustReject},
 			{Name: "mutations", Quick: 100000, Thorough: 8000000, Run: c06Mutate, RawReplay: c06RawReplay},
 		},
+		Extra: fuzzExtra("C06", 3000000),
 		Require: []string{"accepted", "rejected", "class_grammar", "class_one-defect", "class_mutation", "class_raw-bytes", "class_splice",
 			"must_reject_mixed-dimension coordinate", "must_reject_unclosed ring", "must_reject_ring with fewer than 4 points", "must_reject_one-point linestring", "must_reject_point with 1 or >4 ordinates", "must_reject_collection member of another dimensionality"},
 	})
